@@ -17,7 +17,10 @@ Failure keys are '<operation>:<aspect>' (+ ':after_gap' when the row index had g
 operation), e.g. 'add_column:values:after_gap', 'split:complement', 'remove:excludedData'.
 Root causes that were identified on the unchanged tree carry their own key without suffix:
 'panel:within_individual_order', 'sample_individual_map:stale_after_remove',
-'extract_rows:one_shot_iterable', 'flatten_database:row_name_constant_within_groups'.
+'extract_rows:one_shot_iterable', 'flatten_database:row_name_constant_within_groups' (these four were
+repaired in /repo), and 'remove:rows_sharing_a_label_deleted' (remove() drops by label: with
+repeated row labels it also deletes rows on which the condition is zero).  The suffix is
+':dup_labels' instead of ':after_gap' when the row labels repeat before the operation.
 """
 from __future__ import annotations
 
@@ -38,8 +41,11 @@ ASSUMPTIONS = [
     'the value the engine stored is accepted within the C01 tolerance and then adopted by the model, so '
     'that later steps read exactly what the table holds',
     'formulas carry no shared sub-trees (the ConditionalSum finding of C01 is not re-tested here)',
-    'row identity inside folds is the pandas index label (unique in Database.data); where a returned '
-    'frame carries other labels the comparison falls back to multisets of row values',
+    'row labels may repeat (stacked waves, a Database built from a bootstrap sample or from extract_rows '
+    'with repeated positions) or be any unique integers: rows are identified by position in Database.data and, '
+    'inside folds, by the multiset of (label, values) pairs - of values alone where a fold carries labels the '
+    'table does not have; no operation of the property is documented as undefined for repeated labels, so all '
+    'are asserted (panel() renumbers the rows, so the flat frame and the individual map never see repeats)',
     'the column declared as panel identifier, and identifier columns in general, are never scaled; '
     'explicit identical_columns only name columns that are constant within every individual',
     'a documented refusal (BiogemeError of panel() on non-contiguous identifiers) ends the history: the state '
@@ -69,7 +75,7 @@ class Model:
         self.cols = [c[0] for c in cols]
         n = len(cols[0][2]) if cols else 0
         self.rows = [{name: float(values[i]) for name, _, values in cols} for i in range(n)]
-        self.labels = list(range(n))
+        self.labels = list(table['index']) if table.get('index') is not None else list(range(n))
         self.panel = None
         self.map_stale = False  # rows were removed after the individual map was built
         self.removed = 0  # rows deleted so far
@@ -81,6 +87,10 @@ class Model:
     @property
     def gapped(self):
         return self.labels != list(range(len(self.labels)))
+
+    @property
+    def duplicated(self):
+        return len(set(map(repr, self.labels))) != len(self.labels)
 
     def column(self, name):
         return [r[name] for r in self.rows]
@@ -227,10 +237,22 @@ def _exc(e):
     return (type(e).__name__, type(e).__module__, str(e)[:300], traceback.format_exc(limit=12))
 
 
+def _build_database(table, name='verif'):
+    """Like build.build_database, with the row labels of the table spec (key 'index': stacked
+    waves = duplicated labels, offsets, shuffled labels; None = 0..n-1)."""
+    import biogeme.database as db
+
+    df = build.build_dataframe(table)
+    if table.get('index') is not None:
+        df.index = list(table['index'])
+    return db.Database(name, df)
+
+
 def _observe(spec):
-    d = build.build_database(spec['table'])
+    d = _build_database(spec['table'])
     b = build.Builder([], overloads=bool(spec.get('overloads')))
     steps = [dict(snap=_snapshot(d))]
+    box = {}
     for i, op in enumerate(spec['ops']):
         kind = op[0]
         n = len(d.data)
@@ -280,6 +302,19 @@ def _observe(spec):
         elif kind == 'sample':
             call = lambda: d.sample_with_replacement(op[1])  # noqa: E731
             enc = _frame
+        elif kind == 'resample':
+            # the table is replaced by a bootstrap sample of itself (row labels repeat)
+            def call():
+                box['new'] = type(d)(d.name + '_boot', d.sample_with_replacement(op[1]))
+
+            enc = lambda r: None  # noqa: E731
+        elif kind == 'reextract':
+            pos = [p % n for p in op[1]] if n else []
+
+            def call():
+                box['new'] = d.extract_rows(list(pos))
+
+            enc = lambda r: None  # noqa: E731
         elif kind == 'sample_individuals':
             call = lambda: d.sample_individual_map_with_replacement(op[1])  # noqa: E731
             enc = lambda r: [[_label(i), int(r.iloc[k, 0]), int(r.iloc[k, 1])]  # noqa: E731
@@ -306,6 +341,9 @@ def _observe(spec):
             result = None
         if rec['exc'] is None:
             rec['ret'] = enc(result)
+            if 'new' in box:
+                d = box.pop('new')
+        box.clear()
         rec['snap'] = _snapshot(d)
         steps.append(rec)
     return steps
@@ -364,6 +402,10 @@ def _describe(op):
         return f'scale_column({op[1]!r}, {op[2]!r})'
     if kind == 'extract':
         return f'extract_rows[{op[1]}]{op[2]}'
+    if kind == 'resample':
+        return f'Database(sample_with_replacement({op[1]}))'
+    if kind == 'reextract':
+        return f'd = d.extract_rows({op[1]})'
     return f'{kind}{tuple(op[1:])}'
 
 
@@ -408,16 +450,19 @@ def judge_history(spec, follow=('add_column', 'define_variable', 'split')) -> Ou
         return out
 
     gap_seen_by = set()
+    dup_seen_by = set()
     removal_then = False
     history = []
     for i, op in enumerate(ops):
         kind = op[0]
         rec = steps[i + 1]
         snap = rec['snap']
-        ctx = ':after_gap' if m.gapped else ''
+        ctx = ':dup_labels' if m.duplicated else ':after_gap' if m.gapped else ''
         history.append(_describe(op))
         where = f'step {i + 1}/{len(ops)} [{" ; ".join(history[-4:])}] on {m.n} rows' \
-                f'{" (gapped index " + str(m.labels) + ")" if m.gapped else ""}'
+                f'{" (row labels " + str(m.labels) + ")" if m.gapped else ""}'
+        if m.duplicated:
+            dup_seen_by.add(kind)
         out.classes.append(f'op:{kind}')
         if m.gapped:
             gap_seen_by.add(kind)
@@ -439,10 +484,7 @@ def judge_history(spec, follow=('add_column', 'define_variable', 'split')) -> Ou
             break
         if verdict == 'end':
             break
-        # the index labels are whatever the library keeps; they must identify rows
-        if len(set(map(repr, snap['index']))) != len(snap['index']):
-            out.fail(f'{kind}:index_not_unique{ctx}', f'{where}: row labels are no longer unique: {snap["index"]}')
-            break
+        # the row labels are whatever the library keeps (they may repeat: stacked waves, bootstrap)
         m.labels = list(snap['index'])
         if snap['n_obs'] != m.n:
             out.fail(f'{kind}:number_of_observations{ctx}',
@@ -459,6 +501,11 @@ def judge_history(spec, follow=('add_column', 'define_variable', 'split')) -> Ou
     out.nontrivial = len(ops) >= 3 and removal_then
     for k in sorted(gap_seen_by):
         out.classes.append(f'after_gap:{k}')
+    for k in sorted(dup_seen_by):
+        out.classes.append(f'dup_labels:{k}')
+    idx = spec['table'].get('index')
+    out.classes.append('table_labels:default' if idx is None else
+                       'table_labels:duplicated' if len(set(idx)) != len(idx) else 'table_labels:other')
     out.classes.append('len=%s' % ('0-2' if len(ops) <= 2 else '3-5' if len(ops) <= 5 else
                                    '6-9' if len(ops) <= 9 else '10+'))
     if m.panel is not None:
@@ -492,8 +539,26 @@ def _judge_step(out, m: Model, op, rec, snap, ctx, where, unexpected):
         out.classes.append('remove:all' if n_del == m.n else 'remove:some' if n_del else 'remove:none')
         kept = [r for r, f in zip(m.rows, flags) if not f]
         before = m.n
+        old_rows = m.rows
         m.rows = kept
         diff = _state_matches(snap, m)
+        if diff and m.duplicated and n_del:
+            # does the table hold what a deletion BY LABEL leaves (every row sharing its label with a
+            # flagged row is gone as well)?
+            gone = {repr(x) for x, f in zip(m.labels, flags) if f}
+            alt = Model.__new__(Model)
+            alt.cols = m.cols
+            alt.rows = [r for r, x, f in zip(old_rows, m.labels, flags) if repr(x) not in gone]
+            if not _state_matches(snap, alt) and len(alt.rows) < len(kept):
+                out.fail('remove:rows_sharing_a_label_deleted',
+                         f'{where}: condition is non-zero on {n_del} of {before} rows (flags {flags}); '
+                         f'{before - len(alt.rows)} rows were deleted: also the rows that merely carry the same '
+                         f'row label as a flagged row; excludedData = {snap["excluded"]}')
+                m.rows = [dict(r) for r in alt.rows]  # follow the table, keep judging
+                m.removed += before - len(alt.rows)
+                if m.panel is not None:
+                    m.map_stale = True
+                return 'end' if m.n == 0 else 'continue'
         if diff:
             n_obs = len(snap['values'] or [])
             aspect = 'columns' if sorted(snap['cols']) != sorted(m.cols) else \
@@ -680,6 +745,40 @@ def _judge_step(out, m: Model, op, rec, snap, ctx, where, unexpected):
         _unchanged(out, m, snap, 'sample_with_replacement', ctx, where)
         return 'ok'
 
+    # ------------------------------------------------------------------ table replaced by a bootstrap sample
+    if kind == 'resample':
+        size = op[1]
+        if rec['exc'] is not None:
+            unexpected('resample')
+            return 'ok'
+        want = m.n if size is None else size
+        rows = _rows_of(snap) if snap['values'] is not None else None
+        if rows is None or sorted(snap['cols']) != sorted(m.cols) or len(rows) != want:
+            out.fail(f'resample:shape{ctx}', f'{where}: database built from a sample of size {size}: '
+                                             f'{None if rows is None else len(rows)} rows, columns {snap["cols"]}')
+            return 'ok'
+        existing = {_key_tuple(r, m.cols) for r in m.rows}
+        for g in rows:
+            if _key_tuple(g, m.cols) not in existing:
+                out.fail(f'resample:foreign_row{ctx}', f'{where}: row {g} of the new database is not a row of the table')
+                return 'ok'
+        m.rows = [{c: g[c] for c in m.cols} for g in rows]  # the sample is random: follow it
+        m.panel, m.map_stale = None, False
+        return 'ok'
+
+    # ------------------------------------------------------------------ table replaced by extracted rows
+    if kind == 'reextract':
+        pos = [p % m.n for p in op[1]]
+        if rec['exc'] is not None:
+            unexpected('extract_rows')
+            return 'ok'
+        m.rows = [dict(m.rows[p]) for p in pos]
+        m.panel, m.map_stale = None, False
+        diff = _state_matches(snap, m)
+        if diff:
+            out.fail(f'extract_rows:rows{ctx}', f'{where}: database returned by extract_rows({pos}): {diff}')
+        return 'ok'
+
     # ------------------------------------------------------------------ split
     if kind == 'split':
         k, groups = op[1], op[2]
@@ -851,41 +950,42 @@ def _judge_split(out, m: Model, k, by, folds, ctx, where):
             if fr['values'] is None or sorted(fr['cols']) != sorted(cols):
                 out.fail(f'split:columns{ctx}', f'{where}: a fold has columns {fr["cols"]}')
                 return
-    labels = [repr(x) for x in m.labels]
-    row_of = dict(zip(labels, m.rows))
-    by_label = all(repr(x) in row_of for est, val in folds for fr in (est, val) for x in fr['index'])
+    # identity of a row = (label, values); labels may repeat, so everything is compared as multisets.
+    # If a fold carries labels the table does not have, only the values are compared.
+    from collections import Counter
 
-    def ident(fr):
-        """identity of every row of a fold: label (checked against the values) or value tuple."""
+    def idents(fr, with_labels):
         rows = _rows_of(fr)
-        if by_label:
-            for lab, r in zip(fr['index'], rows):
-                if not _row_equal(r, row_of[repr(lab)], cols):
-                    return None, f'row labelled {lab} holds {r}, the table holds {row_of[repr(lab)]}'
-            return [repr(x) for x in fr['index']], ''
-        return [_key_tuple(r, cols) for r in rows], ''
+        if with_labels:
+            return [(repr(lab),) + _key_tuple(r, cols) for lab, r in zip(fr['index'], rows)]
+        return [_key_tuple(r, cols) for r in rows]
 
-    everything = sorted(labels) if by_label else sorted(_key_tuple(r, cols) for r in m.rows)
-    all_val = []
-    vals = []
+    table_fr = dict(cols=cols, index=m.labels, values=[[r[c] for c in cols] for r in m.rows])
+    known = set(idents(table_fr, True))
+    with_labels = all(x in known for est, val in folds for fr in (est, val) for x in idents(fr, True))
+    everything = Counter(idents(table_fr, with_labels))
+    all_val = Counter()
     for j, (est, val) in enumerate(folds):
-        v, msg = ident(val)
-        e, msg2 = ident(est)
-        if v is None or e is None:
-            out.fail(f'split:values{ctx}', f'{where}: fold {j}: {msg or msg2}')
+        v, e = Counter(idents(val, with_labels)), Counter(idents(est, with_labels))
+        foreign = [x for x in list(v) + list(e) if x not in everything]
+        if foreign:
+            out.fail(f'split:values{ctx}', f'{where}: fold {j} holds {foreign[0]}, which is not a row of the table')
             return
-        vals.append(v)
         all_val += v
-        if sorted(v + e) != everything:
-            both = sorted(set(v) & set(e))
+        if v + e != everything:
+            lost = sorted((everything - v - e).elements())
+            extra = sorted((v + e - everything).elements())
             out.fail(f'split:complement{ctx}',
-                     f'{where}: fold {j} of split({k}, {by!r}): estimation part {e} is not the complement of the '
-                     f'validation part {v} in {everything} (in both: {both})')
+                     f'{where}: fold {j} of split({k}, {by!r}): estimation part ({sum(e.values())} rows) is not the '
+                     f'complement of the validation part ({sum(v.values())} rows) in the table ({m.n} rows): '
+                     f'missing {lost[:4]}, in excess {extra[:4]} (label, values... of columns {cols})')
             return
-    if sorted(all_val) != everything:
+    if all_val != everything:
         out.fail(f'split:partition{ctx}',
-                 f'{where}: validation parts of split({k}, {by!r}) are {vals}; together they must contain every '
-                 f'row of {everything} exactly once')
+                 f'{where}: validation parts of split({k}, {by!r}) hold {sum(all_val.values())} rows; together they '
+                 f'must contain every one of the {m.n} rows exactly once: missing '
+                 f'{sorted((everything - all_val).elements())[:4]}, in excess '
+                 f'{sorted((all_val - everything).elements())[:4]}')
         return
     if by is not None:
         home = {}
@@ -905,16 +1005,22 @@ def _judge_split(out, m: Model, k, by, folds, ctx, where):
 WEIGHTS = {
     #              remove add def val scale count extract sample split panel s_ind flat
     'history': dict(remove=5, add_column=4, define_variable=2, values=1, scale=2, count=2, extract=2,
-                    sample=2, split=4, panel=1, sample_individuals=1, flat=1),
+                    sample=2, split=4, panel=1, sample_individuals=1, flat=1, resample=2, reextract=1),
     'panel': dict(remove=4, add_column=2, define_variable=0, values=0, scale=1, count=1, extract=0,
-                  sample=0, split=2, panel=4, sample_individuals=4, flat=5),
+                  sample=0, split=2, panel=4, sample_individuals=4, flat=5, resample=0, reextract=0),
     'folds': dict(remove=3, add_column=1, define_variable=0, values=0, scale=1, count=0, extract=0,
-                  sample=1, split=8, panel=1, sample_individuals=0, flat=0),
+                  sample=1, split=8, panel=1, sample_individuals=0, flat=0, resample=3, reextract=1),
     'extract': dict(remove=4, add_column=1, define_variable=1, values=0, scale=1, count=3, extract=7,
-                    sample=3, split=0, panel=1, sample_individuals=0, flat=0),
+                    sample=3, split=0, panel=1, sample_individuals=0, flat=0, resample=2, reextract=2),
 }
 
 
+_LABEL_KINDS = {
+    'history': ['default'] * 5 + ['stacked'] * 3 + ['offset', 'shuffled'],
+    'panel': ['default'] * 7 + ['stacked'] * 2 + ['shuffled'],
+    'folds': ['default'] * 4 + ['stacked'] * 4 + ['offset', 'shuffled'],
+    'extract': ['default'] * 5 + ['stacked'] * 3 + ['offset', 'shuffled'],
+}
 _SLOTS = st.sampled_from(list(range(100)))  # (close to) uniform, unlike bounded integers/floats
 _STOP = st.sampled_from([0] + [1] * 11)
 
@@ -936,6 +1042,8 @@ def _table(draw, focus, big):
     n_const = draw(st.integers(0, 2))
     n_ind = draw(st.integers(1, min(n, 5)))
     ascending = focus != 'panel' or _p(draw, 0.3)
+    # row labels: pandas default, two stacked waves (labels repeat), or other unique labels
+    label_kind = draw(st.sampled_from(_LABEL_KINDS[focus]))
     rnd = random.Random(draw(st.integers(0, 2 ** 31 - 1)))
     names = rnd.sample(gen.COLUMN_NAMES, sum(counts.values()))
     it = iter(names)
@@ -992,7 +1100,17 @@ def _table(draw, focus, big):
     for e in extra:
         cols.insert(rnd.randint(0, len(cols)), e)
     info['int'].append([idname, min(idents), max(idents)])
-    return dict(columns=cols), info
+    index = None
+    if label_kind == 'stacked':  # pd.concat([wave_1, wave_2]) without ignore_index
+        cut = rnd.randint(1, n - 1)
+        index = list(range(cut)) + list(range(n - cut))
+    elif label_kind == 'offset':
+        start, step_ = rnd.choice([1, 10, 100, -3]), rnd.choice([1, 2, 10])
+        index = [start + step_ * k for k in range(n)]
+    elif label_kind == 'shuffled':
+        index = list(range(n))
+        rnd.shuffle(index)
+    return dict(columns=cols, index=index), info
 
 
 def _fallback(sort, info):
@@ -1191,6 +1309,25 @@ def _step(draw, state):
     elif kind == 'sample':
         size = None if _p(draw, 0.4) else draw(st.integers(1, 2 * m.n + 1))
         ops.append(['sample', size])
+    elif kind == 'resample':
+        size = None if _p(draw, 0.5) else draw(st.integers(2, m.n + 3))
+        # the same stream as the child (seeded with np_seed + step index): only to keep the generator's
+        # picture of the table close to the real one; the oracle follows the observed sample
+        pick = np.random.RandomState((state['np_seed'] + len(ops)) % (2 ** 32)).randint(
+            0, m.n, size=m.n if size is None else size)
+        ops.append(['resample', size])
+        m.rows = [dict(m.rows[j]) for j in pick]
+        m.labels = [m.labels[j] for j in pick]
+        m.panel = None
+        state['stale'] = False
+    elif kind == 'reextract':
+        ints = draw(st.lists(st.integers(0, 10 ** 6), min_size=2, max_size=m.n + 2))
+        ops.append(['reextract', ints])
+        pos = [p % m.n for p in ints]
+        m.rows = [dict(m.rows[j]) for j in pos]
+        m.labels = [m.labels[j] for j in pos]
+        m.panel = None
+        state['stale'] = False
     elif kind == 'split':
         k = draw(st.one_of(st.integers(2, 5), st.integers(2, m.n + 2)))
         if _p(draw, 0.03):
@@ -1239,7 +1376,8 @@ def histories(draw, tier, focus):
     table, info = draw(_table(focus, big))
     np_seed = draw(st.integers(0, 2 ** 31 - 1))
     overloads = draw(st.booleans())
-    state = dict(m=Model(table), info=info, focus=focus, ops=[], names=list(NEW_NAMES), over=False, steps=0, stale=False)
+    state = dict(m=Model(table), info=info, focus=focus, ops=[], names=list(NEW_NAMES), over=False, steps=0, stale=False,
+                 np_seed=np_seed)
     limit = 25 if big else 12
     for _ in range(2 * limit):
         if state['over'] or state['m'].n == 0 or len(state['ops']) >= limit:
@@ -1443,6 +1581,8 @@ def render(spec):
     cols = spec['table']['columns']
     head = ', '.join(f'{c[0]}:{c[1]}' for c in cols)
     n = len(cols[0][2])
+    if spec['table'].get('index') is not None:
+        head += f'; row labels {spec["table"]["index"]}'
     return f'table[{n} rows; {head}] -> ' + ' ; '.join(_describe(op) for op in spec['ops'])[:900]
 
 
@@ -1455,9 +1595,11 @@ FOLLOW_ALL = ('add_column', 'define_variable', 'split')
 SUBCHECKS = [
     SubCheck('history', _strategy('history'), functools.partial(judge_history, follow=FOLLOW_ALL), render,
              dict(quick=1400, thorough=40000),
-             'random table (identifier column with contiguous, ascending groups) x 3-12 interleaved operations '
-             '(remove, add_column, define_variable, values_from_database, scale_column, count, extract_rows, '
-             'sample_with_replacement, split, panel, sample_individual_map, flat panel), table compared with the '
+             'random table (identifier column with contiguous, ascending groups; row labels default, stacked '
+             'waves = repeated labels, offset or shuffled) x 3-12 interleaved operations (remove, add_column, '
+             'define_variable, values_from_database, scale_column, count, extract_rows, sample_with_replacement, '
+             'split, panel, sample_individual_map, flat panel, Database rebuilt from a bootstrap sample or from '
+             'extract_rows with repeated positions), table compared with the '
              'model after every step (identifiers in arbitrary order and the bootstrap of individuals after a '
              'removal in panel mode are left to the panel sub-check); non-trivial: >= 3 operations and a removal '
              'that deleted >= 1 row followed by add_column/define_variable/split', max_skip_fraction=0.1),
@@ -1472,7 +1614,8 @@ SUBCHECKS = [
              max_skip_fraction=0.1),
     SubCheck('folds', _strategy('folds'), functools.partial(judge_history, follow=('split',)), render,
              dict(quick=900, thorough=25000),
-             'split(k, groups) for k from 2 to rows+2 and every kind of group column, mostly after removals: '
+             'split(k, groups) for k from 2 to rows+2 and every kind of group column, mostly after removals, on '
+             'tables with repeated row labels in about half of the cases (stacked waves, bootstrap rebuild): '
              'validation parts disjoint and covering, estimation = complement, groups kept together, k folds; '
              'non-trivial: >= 3 operations, a removal that deleted >= 1 row followed by split',
              max_skip_fraction=0.1),
